@@ -299,6 +299,8 @@ func (s *scenario) event(k string) pubsub.Event {
 		return mtypes.EventLeaseCreated{ID: mtypes.MakeLeaseID(mtypes.MakeBidID(s.oid, s.other)), Price: sdk.NewInt64Coin(denom, 1)}
 	case "won":
 		return mtypes.EventLeaseCreated{ID: mtypes.MakeLeaseID(mtypes.MakeBidID(s.oid, s.provider)), Price: sdk.NewInt64Coin(denom, 1)}
+	case "created":
+		return mtypes.EventOrderCreated{ID: s.oid}
 	case "other":
 		o := s.oid
 		o.GSeq++
